@@ -59,35 +59,36 @@ example : ∃ j j', Ex.sA.job = some j ∧ Ex.sC.job = some j' ∧ Steps anyActi
   ⟨Ex.jobOf Ex.sA, Ex.jobOf Ex.sC, by decide +kernel, by decide +kernel, Ex.sA_sC, by decide +kernel,
     by decide +kernel⟩
 
-/-! ### `timestamps_never_cleared`, `created_nondecreasing` (histories without foreign pods)
+/-! ### `timestamps_never_cleared`, `created_nondecreasing`
 
-`_partial`: proved for histories in which no foreign pod is created (`noForeign`; a pod that is not
-controlled by the Job but takes the name of a recorded task is read by `getTaskForRef` as that task —
-see `C09Hist.foreign_recorded_witness`), for a Job whose index hashes are pairwise distinct and contain
-no `-` (`WF2`, cf. C14).  Every other action is allowed: any fault pattern, informer lag, restart,
-clock, kubelet, external pod deletion, user kill / delete. -/
+ALL actions are allowed: any fault pattern, informer lag, restart, clock, kubelet, external pod
+deletion, user kill / delete — and, since the repair of F22, foreign pods on any name (before the repair
+these were `*_partial`, proved only for histories without foreign pods: a pod that is not controlled by
+the Job but took the name of a recorded task was read by `getTaskForRef` as that task; now no lookup
+reads it, `C09Hist.foreign_never_read`).  Job: index hashes pairwise distinct and free of `-` (`WF2`,
+cf. C14). -/
 
 /-- `timestamps_never_cleared`, one step: every ref of the authoritative status is still there after
 the step, under the same name, and none of its creation / running / finish timestamps that was set has
 been cleared (while the Job object exists). -/
-theorem timestamps_never_cleared_partial_step {ok : Sys → Action → Prop} (hok : ∀ s a, ok s a → noForeign s a) {j0 : JobObj}
+theorem timestamps_never_cleared_step {ok : Sys → Action → Prop} {j0 : JobObj}
     {s : Sys} (hr : Reach ok j0 s) (hwf : WF2 j0 s.d) (a : Action) (hal : Allowed j0 s a) (j j' : JobObj)
     (hj : s.job = some j) (hj' : (step s a).job = some j') :
     RefsKeep j.job.status.tasks j'.job.status.tasks :=
   jobMoves_rel (fun x y => RefsKeep x.status.tasks y.status.tasks) (fun _ => RefsKeep.refl _)
     (fun _ _ _ h1 h2 => h1.trans h2) (fun _ _ h => by rw [h]; exact RefsKeep.refl _)
-    (fun jo sp hc hf => (sync_good_of_reach hok hr hwf jo sp hc hf).2.2)
+    (fun jo sp hc hf => (sync_good_of_reach hr hwf jo sp hc hf).2.2)
     (fun _ _ _ h1 h2 => by rw [h2]; exact h1) (job_moves (base_of_reach hr) a hal) j j' hj hj'
 
 /-- `timestamps_never_cleared` along every continuation of the history -/
-theorem timestamps_never_cleared_partial {ok : Sys → Action → Prop} (hok : ∀ s a, ok s a → noForeign s a) {j0 : JobObj}
+theorem timestamps_never_cleared {ok : Sys → Action → Prop} {j0 : JobObj}
     {s s' : Sys} (hr : Reach ok j0 s) (hwf : WF2 j0 s.d) (hs : Steps ok j0 s s') (j j' : JobObj)
     (hj : s.job = some j) (hj' : s'.job = some j') :
     RefsKeep j.job.status.tasks j'.job.status.tasks := by
   refine steps_rel (fun x y => RefsKeep x.status.tasks y.status.tasks)
     (fun _ => RefsKeep.refl _) (fun _ _ _ h1 h2 => h1.trans h2) ?_ hr hs j j' hj hj'
   intro s1 a hs1 hr1 _ hal j1 j1' h1 h1'
-  exact timestamps_never_cleared_partial_step hok hr1 (by rw [steps_d hs1]; exact hwf) a hal j1 j1' h1 h1'
+  exact timestamps_never_cleared_step hr1 (by rw [steps_d hs1]; exact hwf) a hal j1 j1' h1 h1'
 
 example : ∃ j j', Ex.sA.job = some j ∧ Ex.sC.job = some j' ∧ Steps anyAction Ex.job Ex.sA Ex.sC ∧
     WF2 Ex.job Ex.sA.d ∧ (j.job.status.tasks.map (·.finishTimestamp) = [none]) ∧
@@ -97,7 +98,7 @@ example : ∃ j j', Ex.sA.job = some j ∧ Ex.sC.job = some j' ∧ Steps anyActi
 
 /-- `created_nondecreasing`, one step: `status.createdTasks` of the authoritative Job never decreases
 (while the object exists). -/
-theorem created_nondecreasing_partial_step {ok : Sys → Action → Prop} (hok : ∀ s a, ok s a → noForeign s a) {j0 : JobObj}
+theorem created_nondecreasing_step {ok : Sys → Action → Prop} {j0 : JobObj}
     {s : Sys} (hr : Reach ok j0 s) (hwf : WF2 j0 s.d) (a : Action) (hal : Allowed j0 s a) (j j' : JobObj)
     (hj : s.job = some j) (hj' : (step s a).job = some j') :
     j.job.status.createdTasks ≤ j'.job.status.createdTasks := by
@@ -105,7 +106,7 @@ theorem created_nondecreasing_partial_step {ok : Sys → Action → Prop} (hok :
     (fun _ _ _ h1 h2 => Int.le_trans h1 h2) (fun _ _ h => by rw [h]; exact Int.le_refl _) ?_
     (fun _ _ _ h1 h2 => by rw [h2]; exact h1) (job_moves (base_of_reach hr) a hal) j j' hj hj'
   intro jo sp hc hf
-  obtain ⟨hg, hgk⟩ := sync_good_of_reach hok hr hwf jo sp hc hf
+  obtain ⟨hg, hgk⟩ := sync_good_of_reach hr hwf jo sp hc hf
   have hsub := (sync_spec sp jo sp (CreatePhase.refl _)).2.names
   have hlen := hg.nodup.length_le_of_subset (fun n hn => hsub n hn)
   unfold refNames at hlen
@@ -114,14 +115,14 @@ theorem created_nondecreasing_partial_step {ok : Sys → Action → Prop} (hok :
   exact Int.ofNat_le.mpr hlen
 
 /-- `created_nondecreasing` along every continuation of the history -/
-theorem created_nondecreasing_partial {ok : Sys → Action → Prop} (hok : ∀ s a, ok s a → noForeign s a) {j0 : JobObj}
+theorem created_nondecreasing {ok : Sys → Action → Prop} {j0 : JobObj}
     {s s' : Sys} (hr : Reach ok j0 s) (hwf : WF2 j0 s.d) (hs : Steps ok j0 s s') (j j' : JobObj)
     (hj : s.job = some j) (hj' : s'.job = some j') :
     j.job.status.createdTasks ≤ j'.job.status.createdTasks := by
   refine steps_rel (fun x y => x.status.createdTasks ≤ y.status.createdTasks)
     (fun _ => Int.le_refl _) (fun _ _ _ h1 h2 => Int.le_trans h1 h2) ?_ hr hs j j' hj hj'
   intro s1 a hs1 hr1 _ hal j1 j1' h1 h1'
-  exact created_nondecreasing_partial_step hok hr1 (by rw [steps_d hs1]; exact hwf) a hal j1 j1' h1 h1'
+  exact created_nondecreasing_step hr1 (by rw [steps_d hs1]; exact hwf) a hal j1 j1' h1 h1'
 
 example : ∃ j j', Ex.s0.job = some j ∧ Ex.sA.job = some j' ∧ j.job.status.createdTasks = 0 ∧
     j'.job.status.createdTasks = 1 :=
